@@ -21,7 +21,12 @@ impl std::fmt::Debug for Utc {
 
 impl std::fmt::Display for Utc {
     fn fmt(&self, f: &mut std::fmt::Formatter) -> std::fmt::Result {
-        (time::OffsetDateTime::UNIX_EPOCH + self.0).fmt(f)
+        // Timestamps come from the network: the value may be outside of the range of dates
+        // that `OffsetDateTime` supports, in which case `+` would panic.
+        match time::OffsetDateTime::UNIX_EPOCH.checked_add(self.0) {
+            Some(t) => t.fmt(f),
+            None => write!(f, "UNIX_EPOCH{:+}s", self.0.whole_seconds()),
+        }
     }
 }
 
